@@ -241,17 +241,47 @@ def only_formerly_imported(case, oracle):
 
 # --------------------------------------------------------------------------- running and comparing
 
-def run_cases(ck, cases, exe_nls, exe_model):
-    rc1, impl_out, e1 = core.run_sharded(core.harness_bin("c19"), [exe_nls], cases, timeout=3400)
-    rc2, model_out, e2 = core.run_sharded(exe_model, ["code"], cases)
-    rc3, patched_out, e3 = core.run_sharded(exe_model, ["patched"], cases)
+PROBE_PURGE = "4 0=100//o O0=1/1/o,O1=2//o,X0,C1=3//t"
+PROBE_SELF = "4 - O0=1/0/o"
+
+
+def detect_cfg(ck, exe_nls, exe_model):
+    """Which of the two proposed patches does the code under test contain?  Decided by replaying
+    the two minimal witnesses on the real server and seeing which configuration of the model
+    reproduces them (the model is proved for every configuration)."""
+    rc, out, err = core.run_lines(core.harness_bin("c19"), [exe_nls, "--no-oracle"], [PROBE_PURGE, PROBE_SELF], timeout=300)
+    flags = ["0", "0"]
+    try:
+        real = [json.loads(x) for x in out]
+        _, m0, _ = core.run_lines(exe_model, ["00"], [PROBE_PURGE, PROBE_SELF])
+        _, m1, _ = core.run_lines(exe_model, ["11"], [PROBE_PURGE, PROBE_SELF])
+        for i in (0, 1):
+            t0, t1 = m0[i].partition(" # ")[0], m1[i].partition(" # ")[0]
+            if real[i].get("trace") == t1 and real[i].get("trace") != t0:
+                flags[i] = "1"
+            elif real[i].get("trace") != t0:
+                ck.obligation("correspondence:probe-%d" % i, "correspondence", False,
+                              "impl %s\nmodel(code) %s\nmodel(patched) %s" % (real[i].get("trace"), t0, t1))
+    except (ValueError, IndexError) as ex:
+        ck.obligation("correspondence:probe", "internal", False, "rc=%s %s %s" % (rc, err[-400:], ex))
+    cfg = "".join(flags)
+    ck.coverage["model_configuration"] = {"purge_closed": flags[0] == "1", "self_guard": flags[1] == "1"}
+    return cfg
+
+
+def run_cases(ck, cases, exe_nls, exe_model, cfg=None):
+    cfg = cfg or detect_cfg(ck, exe_nls, exe_model)
+    hooks = nls_has_hooks()
+    rc1, impl_out, e1 = core.run_sharded(core.harness_bin("c19"), [exe_nls] + (["--state"] if hooks else []), cases, timeout=3400)
+    rc2, model_out, e2 = core.run_sharded(exe_model, [cfg, "state"], cases)
+    rc3, patched_out, e3 = core.run_sharded(exe_model, ["11"], cases)
     if rc1 or rc2 or rc3:
         ck.obligation("correspondence-run", "internal", False, "rc=%s/%s/%s %s %s %s" % (rc1, rc2, rc3, e1[-800:], e2[-800:], e3[-800:]))
-    compare(ck, cases, impl_out, model_out, patched_out)
+    compare(ck, cases, impl_out, model_out, patched_out, hooks)
     return impl_out, model_out
 
 
-def compare(ck, cases, impl_out, model_out, patched_out):
+def compare(ck, cases, impl_out, model_out, patched_out, hooks=False):
     for case, a, m, mp in zip(cases, impl_out, model_out, patched_out):
         try:
             r = json.loads(a)
@@ -260,6 +290,7 @@ def compare(ck, cases, impl_out, model_out, patched_out):
             continue
         if r.get("skip"):
             continue
+        m, _, mstate = m.partition(" | ")
         mtrace, _, mflags = m.partition(" # ")
         ptrace = mp.partition(" # ")[0]
         mkind = (mflags.split() + ["-"])[0]
@@ -309,6 +340,15 @@ def compare(ck, cases, impl_out, model_out, patched_out):
             else:
                 ck.obligation("correspondence:model-vs-nls", "correspondence", False,
                               "case %s\nimpl  %s\nmodel %s" % (case, rtrace[:600], mtrace[:600]))
+        # ---- state-level correspondence (hook H8): files, cached analyses, imports, rev_imports, failed_imports
+        if hooks and not crash and isinstance(r.get("state"), str):
+            ck.count("states_compared")
+            if r["state"] != mstate.strip():
+                if cyc:
+                    ck.count("cyclic_histories_where_hash_order_shows_in_state")
+                else:
+                    ck.obligation("correspondence:state-model-vs-nls", "correspondence", False,
+                                  "case %s\nimpl  %s\nmodel %s" % (case, r["state"][:900], mstate.strip()[:900]))
         if crash and mkind == "-" or (not crash and mkind != "-"):
             ck.obligation("correspondence:model-vs-nls-crash", "correspondence", False,
                           "case %s\nimpl crash %s\nmodel %s" % (case, crash, mkind))
@@ -364,3 +404,5 @@ def replay(ck, path):
     exe_model = ck.model("C19.v")
     if ok and exe_model and exe_nls and "case" in obj:
         run_cases(ck, [obj["case"]], exe_nls, exe_model)
+        for d in glob.glob("/tmp/verif-c19-*"):
+            shutil.rmtree(d, ignore_errors=True)
